@@ -1,6 +1,24 @@
 ------------------------------ MODULE MCZBlob ------------------------------
-(* Model-checking companion of ZBlob: state constraints used by the exhaustive configurations. *)
+(***************************************************************************)
+(* Model-checking companion of ZBlob: the relations of the exhaustive      *)
+(* configurations.  The full relation Next over-approximates both; they    *)
+(* split it so that each finishes within the quick tier:                   *)
+(*   NextTxn   everything one transaction of c1 can do - every Blob call,  *)
+(*             savepoints and rollbacks, every abort point, a racing       *)
+(*             second writer                                               *)
+(*   NextHist  histories - commit, second writer, undo / redo incl. of a   *)
+(*             creation, abort at every phase, pack at every committed tid *)
+(*             - with the smallest edits (create, rewrite, change P)       *)
+(***************************************************************************)
 EXTENDS ZBlob
-\* bound the length of the chains that do not change the blob directory
-FewLeaks == Len(leak) <= 1
+A1 == CHOOSE x \in Atoms : TRUE
+CreateBlobM(b) == FewEdits /\ CreateBlob(b, <<A1>>)
+RewriteM(b) == FewEdits /\ Rewrite(b, A1)
+EditMin == \/ \E b \in Blobs : CreateBlobM(b)
+           \/ \E b \in Blobs : RewriteM(b)
+           \/ \E v \in PVals : ModifyPQ(v)
+PackAtTid(T) == T \in TidsOf(hist) /\ Pack(T)
+NextTxn == EditQ \/ Sp \/ AbortTxn \/ Tpc \/ AbortPath \/ OtherQ
+NextHist == EditMin \/ Tpc \/ AbortPath \/ Other \/ UndoAll \/ (\E T \in 1..MaxTid : PackAtTid(T))
+NextHistNoPack == EditMin \/ Tpc \/ AbortPath \/ Other \/ UndoAll
 =============================================================================
